@@ -5,7 +5,7 @@ import subprocess
 import vlib
 
 LIBS = ("-lboost_timer", "-lboost_program_options", "-lboost_thread", "-ltbb", "-lpthread")
-RULE = ("library: every sequence of 1..L calls set_global_tbb_concurrency(n), n in {1,2,3,5,16}, each sequence in a fresh process; after every call "
+RULE = ("library: every sequence of 1..L calls set_global_tbb_concurrency(n), n in {1,2,3,5,16}, each call issued from one of two translation units of the program (the header's inline function is expanded in both), each sequence in a fresh process; after every call "
         "tbb::global_control::active_value(max_allowed_parallelism) must equal n (a parallel_for runs between calls so the scheduler is live); after the sequence a library call "
         "(mcb_sva_signed_tbb on K4) must still see the last value. demos: mcb-dimacs.cpp and approx-mcb-dimacs.cpp run in-process (main renamed) for every combination of "
         "algorithm x verbose x printcycles x cores in {1,2,3} (x k in {2,3}) with --parallel=true; active_value is sampled when the demo prints its 'Using ..._TBB' line. "
@@ -17,7 +17,7 @@ K4 = "c K4 mixed weights\np edge 4 6\ne 1 2 1\ne 1 3 2\ne 1 4 1\ne 2 3 1\ne 2 4 
 def builds():
     src = os.path.join(vlib.REPO, "src")
     return vlib.build_many([
-        dict(name="knob_lib", src="knob.cpp", libs=LIBS),
+        dict(name="knob_lib", src="knob.cpp", libs=LIBS, extra_srcs=["knob_tu2.cpp"]),
         dict(name="knob_demo_mcb", src="knob.cpp", flags=vlib.BASE_FLAGS + ['-DKNOB_DEMO="%s/mcb-dimacs.cpp"' % src, '-DKNOB_DEMO_NAME="mcb-dimacs"'], libs=LIBS),
         dict(name="knob_demo_approx", src="knob.cpp", flags=vlib.BASE_FLAGS + ['-DKNOB_DEMO="%s/approx-mcb-dimacs.cpp"' % src, '-DKNOB_DEMO_NAME="approx-mcb-dimacs"'], libs=LIBS),
     ])
@@ -31,7 +31,7 @@ def run(tier):
     c.builds_done()
     f = os.path.join(vlib.BUILD, "k4.dimacs")
     open(f, "w").write(K4)
-    r = vlib.run_harness(b["knob_lib"], ["--len", 2 if tier == "quick" else 4])
+    r = vlib.run_harness(b["knob_lib"], ["--len", 2 if tier == "quick" else 3])
     c.add_run(r, "library call sequences :: " + r["args"], None, replay={"harness": "knob_lib"})
     r = vlib.run_harness(b["knob_demo_mcb"], ["--file", f])
     c.add_run(r, "mcb-dimacs option matrix :: " + r["args"], None, replay={"harness": "knob_demo_mcb"})
